@@ -22,10 +22,11 @@ type ctxModel struct {
 	shmDict  map[string]bool
 	defaults []string
 	shmOK    bool // shm already imported
+	hlpOK    bool // hlp (and through it cfg) already imported
 }
 
 func newCtxModel(lib, marker string) *ctxModel {
-	return &ctxModel{lib: lib, marker: marker, vals: map[string]string{}, path: []string{lib}, argv: []string{"sim"}, shmDict: map[string]bool{}}
+	return &ctxModel{lib: lib, marker: marker, vals: map[string]string{}, path: []string{lib, "/simcwd/common"}, argv: []string{"sim"}, shmDict: map[string]bool{}}
 }
 
 func q(s string) string { return strconv.Quote(s) }
@@ -52,6 +53,30 @@ func (m *ctxModel) importShm() bool {
 	return false
 }
 
+// importHlp: does `import hlp` (which imports cfg) succeed now?
+func (m *ctxModel) importHlp() bool {
+	if m.hlpOK {
+		return true
+	}
+	common, lib := false, false
+	for _, p := range m.path {
+		if p == "/simcwd/common" {
+			common = true
+		}
+		if p == m.lib {
+			lib = true
+		}
+	}
+	// hlp.py is found through the common directory; its `import cfg` through
+	// the context's own directory (or, in relative mode, relative to the
+	// importing FILE hlp.py, i.e. the common directory, where there is none)
+	if common && lib && m.lib != "." {
+		m.hlpOK = true
+		return true
+	}
+	return false
+}
+
 func (m *ctxModel) write(loc string, v int) {
 	val := fmt.Sprintf("w%d", v)
 	switch loc {
@@ -74,6 +99,10 @@ func (m *ctxModel) write(loc string, v int) {
 	case "srcmod.dict":
 		if m.importShm() {
 			m.shmDict[val] = true
+		}
+	case "nested.cfg":
+		if m.importHlp() {
+			m.vals[loc] = val
 		}
 	case "func.default":
 		m.defaults = append(m.defaults, val)
@@ -154,6 +183,15 @@ func (m *ctxModel) read(loc string) string {
 			return q(v)
 		}
 		return q("not-captured")
+	case "nested.cfg":
+		if !m.importHlp() {
+			return "\"exc\" \"ImportError\""
+		}
+		v := "cfg"
+		if w, ok := m.vals[loc]; ok {
+			v = w
+		}
+		return "(" + q(v) + "," + q(m.marker) + ")"
 	case "string.attr":
 		if v, ok := m.vals[loc]; ok {
 			return q(v)
